@@ -993,6 +993,9 @@ func (prop) Generate(rng *rand.Rand, tier string) []corr.Case {
 	// call -> own-chain change -> call for every entry point, kind of change and kind of difference (stale.go);
 	// added last: the cases above keep their seeds
 	staleJobs(rng, thorough, add)
+	// aggregate commits carried by blocks that imply no BFT votes (standby generators, validators removed from
+	// the BFT set, maxHeightGenerated >= height) with replays / lower / same heights (nonvoting.go); added last
+	nonVotingJobs(rng, thorough, add)
 
 	cases := make([]corr.Case, len(jobs))
 	var wg sync.WaitGroup
